@@ -294,6 +294,42 @@ class Cvtsd2si_32(Sse2Instruction):
     patterns = {"prefix": 0xF2, "opcode": 0x2D, "w": 0}
 
 
+class Cvttss2si(Sse1Instruction):
+    """Convert scalar single-fp to integer, truncating toward zero"""
+
+    r = Operand("r", Register64, write=True)
+    rm = Operand("rm", xmm_single_rm_modes, read=True)
+    syntax = Syntax(["cvttss2si", " ", r, ",", " ", rm])
+    patterns = {"prefix": 0xF3, "opcode": 0x2C, "w": 1}
+
+
+class Cvttss2si_32(Sse1Instruction):
+    """Convert scalar single-fp to integer, truncating toward zero"""
+
+    r = Operand("r", Register32, write=True)
+    rm = Operand("rm", xmm_single_rm_modes, read=True)
+    syntax = Syntax(["cvttss2si", " ", r, ",", " ", rm])
+    patterns = {"prefix": 0xF3, "opcode": 0x2C, "w": 0}
+
+
+class Cvttsd2si(Sse2Instruction):
+    """Convert scalar double-fp to integer, truncating toward zero"""
+
+    r = Operand("r", Register64, write=True)
+    rm = Operand("rm", xmm_double_rm_modes, read=True)
+    syntax = Syntax(["cvttsd2si", " ", r, ",", " ", rm])
+    patterns = {"prefix": 0xF2, "opcode": 0x2C, "w": 1}
+
+
+class Cvttsd2si_32(Sse2Instruction):
+    """Convert scalar double-fp to integer, truncating toward zero"""
+
+    r = Operand("r", Register32, write=True)
+    rm = Operand("rm", xmm_double_rm_modes, read=True)
+    syntax = Syntax(["cvttsd2si", " ", r, ",", " ", rm])
+    patterns = {"prefix": 0xF2, "opcode": 0x2C, "w": 0}
+
+
 class Cvtsi2ss(Sse1Instruction):
     """Convert integer to scalar single-fp"""
 
@@ -446,7 +482,7 @@ def pattern_f32tof64(context, tree, c0):
 @sse1_isa.pattern("reg64", "F32TOU64(rmf32)", size=6, cycles=2, energy=2)
 def pattern_f32toi64(context, tree, c0):
     dst = context.new_reg(Register64)
-    context.emit(Cvtss2si(dst, c0))
+    context.emit(Cvttss2si(dst, c0))
     return dst
 
 
@@ -454,7 +490,7 @@ def pattern_f32toi64(context, tree, c0):
 @sse2_isa.pattern("reg64", "F64TOU64(rmf64)", size=6, cycles=3, energy=3)
 def pattern_f64toi64(context, tree, c0):
     dst = context.new_reg(Register64)
-    context.emit(Cvtsd2si(dst, c0))
+    context.emit(Cvttsd2si(dst, c0))
     return dst
 
 
@@ -531,7 +567,7 @@ def pattern_u64tof64(context, tree, c0):
 @sse1_isa.pattern("reg32", "F32TOU32(rmf32)", size=6, cycles=2, energy=2)
 def pattern_f32toi32(context, tree, c0):
     dst = context.new_reg(Register32)
-    context.emit(Cvtss2si_32(dst, c0))
+    context.emit(Cvttss2si_32(dst, c0))
     return dst
 
 
@@ -539,7 +575,7 @@ def pattern_f32toi32(context, tree, c0):
 @sse2_isa.pattern("reg32", "F64TOU32(rmf64)", size=6, cycles=3, energy=3)
 def pattern_f64toi32(context, tree, c0):
     dst = context.new_reg(Register32)
-    context.emit(Cvtsd2si_32(dst, c0))
+    context.emit(Cvttsd2si_32(dst, c0))
     return dst
 
 
